@@ -519,6 +519,14 @@ class MessageManager(interfaces.TokenInterface, interfaces.MessageManager):
                     )
                     return
 
+                if message.mtype in (ACK, RST):
+                    # Like the message ID above, this is left over from an
+                    # earlier transmission of the same object (a resource
+                    # may return a pre-built message again), where it was
+                    # piggy-backed. Now there is no request to acknowledge
+                    # with it, so the type is chosen like for any response.
+                    message.mtype = None
+
             message.opt.no_response = None
 
         if message.mtype is None:
